@@ -358,6 +358,86 @@ def rule_omit_std_types(ctx, ts):
     ctx.floor(R, n, 2)
 
 
+CPP_STD_HEADER = {
+    "size_t": "cstddef", "ptrdiff_t": "cstddef", "uint8_t": "cstdint", "uint16_t": "cstdint", "uint32_t": "cstdint", "uint64_t": "cstdint",
+    "int8_t": "cstdint", "int16_t": "cstdint", "int32_t": "cstdint", "int64_t": "cstdint",
+    "aligned_storage": "type_traits", "add_pointer": "type_traits", "add_lvalue_reference": "type_traits", "add_const_t": "type_traits",
+    "forward": "utility", "move": "utility", "addressof": "memory", "numeric_limits": "limits",
+}
+
+
+def rule_cpp_omit_std(ctx, ts, root):
+    R = "R-C06-OMIT-STD-TYPES"
+    N = ts.nodes
+    base = ts.get("cpp", "base.j2")
+    have = set()
+    for node, stack in j2front.walk(base.ast):
+        if isinstance(node, N.TemplateData):
+            for m in re.finditer(r"#\s*include\s*<(\w+)>", node.data):
+                if j2front.facts(stack) in ([], [("nunavut.support.omit", True)]):
+                    have.add(m.group(1))
+    # headers the include list adds unconditionally (Language.get_includes of C++)
+    src = (root / "src" / "nunavut" / "lang" / "cpp" / "__init__.py").read_text()
+    tree = ast.parse(src)
+    for f in ast.walk(tree):
+        if isinstance(f, ast.FunctionDef) and f.name == "get_includes":
+            for st, gd in pyfront.walk_guarded(f.body):
+                if isinstance(st, ast.Expr) and isinstance(st.value, ast.Call) and getattr(st.value.func, "attr", "") in ("append", "extend") and not gd:
+                    for c in ast.walk(st.value):
+                        if isinstance(c, ast.Constant) and isinstance(c.value, str) and c.value.isidentifier():
+                            have.add(c.value)
+    orc = j2front.GuardOracle(ts, "cpp")
+    uses = {}
+    for t in ts.of_lang("cpp", "templates"):
+        for node, stack in j2front.walk(t.ast):
+            if isinstance(node, N.TemplateData):
+                text = re.sub(r"//[^\n]*", " ", node.data)
+                for m in re.finditer(r"\bstd::(\w+)", text):
+                    if m.group(1) in CPP_STD_HEADER and not orc.guarded(t, stack, _not_omit):
+                        uses.setdefault((m.group(1), CPP_STD_HEADER[m.group(1)]), (t, node, stack))
+    import yaml
+    cfg = yaml.safe_load((root / "src" / "nunavut" / "lang" / "properties.yaml").read_text())
+    for k, v in (cfg.get("nunavut.lang.cpp", {}).get("named_types") or {}).items():
+        m = re.match(r"^std::(\w+)$", str(v))
+        if m and m.group(1) in CPP_STD_HEADER:
+            uses.setdefault((m.group(1), CPP_STD_HEADER[m.group(1)]), (base, None, ()))
+    n = 0
+    for (name, hdr), (t, node, stack) in sorted(uses.items()):
+        n += 1
+        ok = hdr in have
+        ctx.ob(R, t.rel, f"cpp: std::{name} is usable without the support header (<{hdr}>)", ok,
+               f"<{hdr}> is included by the type header itself" if ok else
+               f"std::{name} is emitted with --omit-serialization-support as well, but <{hdr}> then reaches the header only through includes that depend on the "
+               "field kinds: e.g. a service of padding only (port-ID traits) or a C++14 union does not compile in that mode",
+               getattr(node, "lineno", None))
+    ctx.floor(R + ":cpp", n, 6)
+
+
+def rule_unused_param(ctx, ts):
+    R = "R-C06-UNUSED-PARAM"
+    ctx.rule(
+        R,
+        "C++: the bodies emitted by _serialize_impl / _deserialize_impl refer to `obj` only through their fields; for a type "
+        "whose fields are all padding nothing does, so the macro emits `(void)(obj)` unconditionally or under a test on "
+        "fields_except_padding (otherwise -Wunused-parameter under -Werror rejects e.g. `void8 @sealed`)",
+    )
+    N = ts.nodes
+    n = 0
+    for fname, mname in (("serialization.j2", "_serialize_impl"), ("deserialization.j2", "_deserialize_impl")):
+        t = ts.get("cpp", fname)
+        m = ts.macro(t, mname)
+        ok = False
+        for node, stack in j2front.walk(m):
+            if isinstance(node, N.TemplateData) and re.search(r"\(void\) ?\(? ?obj ?\)?;|static_cast<void>\(obj\)", node.data):
+                f = [(e, p) for e, p in j2front.facts(stack)]
+                if not f or all("fields_except_padding" in e or "fields" in e for e, p in f):
+                    ok = True
+        n += 1
+        ctx.ob(R, t.rel, f"cpp: {mname}: `obj` is marked unused when no field refers to it", ok,
+               "" if ok else "a type that consists of padding only gets a body that never mentions `obj`: unused-parameter diagnostic under the strict warning set", m.lineno)
+    ctx.floor(R, n, 2)
+
+
 def rule_member_strop(ctx, ts):
     R = "R-C06-MEMBER-STROP"
     ctx.rule(
@@ -854,6 +934,8 @@ def run(ctx):
     rule_omit_scope(ctx, ts, px)
     rule_std_includes(ctx, px)
     rule_omit_std_types(ctx, ts)
+    rule_cpp_omit_std(ctx, ts, ctx.root)
+    rule_unused_param(ctx, ts)
     rule_member_strop(ctx, ts)
     rule_name_agree(ctx, ts)
     from checks import _codec
